@@ -74,7 +74,7 @@ Init == known = (0 :> Genesis) /\ tip = 0
 
 Extend(d) ==
   /\ tip < MaxLen
-  /\ ProcessBlockHeader(Honest(d, ND), FALSE, "ok")
+  /\ ProcessBlockHeader(Honest(d, ND), {}, "ok")
   /\ tip' = tip + 1
 
 MinDelta == CHOOSE d \in StepDeltas : \A e \in StepDeltas : d <= e
@@ -82,7 +82,8 @@ Next == \E d \in StepDeltas : (tip < Prefix => d = MinDelta) /\ Extend(d)
 Spec == Init /\ [][Next]_mvars
 
 -----------------------------------------------------------------------------
-Acc(h, nd) == IF ValidateWith(h, known, FALSE, nd) # "ok" THEN FALSE ELSE h.rootOK
+AccO(h, opts, nd) == IF ValidateWith(h, known, opts, nd) # "ok" THEN FALSE ELSE h.rootOK
+Acc(h, nd) == AccO(h, {}, nd)
 
 HonestAccepted ==
   LET nd == ND IN \A d \in StepDeltas : Acc(Honest(d, nd), nd)
@@ -104,7 +105,30 @@ SkipPowDecided ==
   LET nd == ND IN
   \A d \in StepDeltas \ {1} :
     \A m \in Mutants(Honest(d, nd), known[tip]) :
-      (ValidateWith(m.h, known, TRUE, nd) = "ok" /\ m.h.rootOK) = (m.benign \/ m.name \in PowClasses)
+      (ValidateWith(m.h, known, {"SKIP_POW"}, nd) = "ok" /\ m.h.rootOK) = (m.benign \/ m.name \in PowClasses)
+
+(* The verdict does not depend on the options the node passes: header sync and body sync
+   (SYNC), self-mined blocks (MINE) and broadcast (none) give every honest header and every
+   mutation the same verdict (hence, with MutantsDecided, the one the property demands), at
+   every entry point; and SYNC / MINE change nothing next to SKIP_POW either. *)
+OptionsIrrelevant ==
+  LET nd == ND
+      os == (SUBSET {"SYNC", "MINE"}) \ {{}}
+  IN
+  \A d \in StepDeltas :
+    LET h == Honest(d, nd) IN
+    /\ \A o \in os : AccO(h, o, nd)
+    /\ d = MinDelta =>       \* the entry points themselves (these recompute the network difficulty)
+         LET bad == [h EXCEPT !.id = MId, !.powValid = FALSE] IN
+         \A o \in os :
+           /\ ProcessHeaderRes(h, known, o) = "ok" /\ SyncRes(<<h>>, known, o) = "ok"
+           /\ ProcessHeaderRes(bad, known, o) = "invalid_pow" /\ SyncRes(<<h, bad>>, known, o) = "invalid_pow"
+    /\ \A m \in Mutants(h, known[tip]) :
+         LET v0 == ValidateWith(m.h, known, {}, nd)
+             vs == ValidateWith(m.h, known, {"SKIP_POW"}, nd)
+         IN \A o \in os :
+              /\ ValidateWith(m.h, known, o, nd) = v0
+              /\ ValidateWith(m.h, known, o \cup {"SKIP_POW"}, nd) = vs
 
 (* the read-time clauses: future time limit, version, edge bits, proof, global weight bound *)
 ReadDecided ==
